@@ -453,6 +453,9 @@ impl<W: Write + io::Seek> ZipWriter<W> {
             GenericZipWriter::Storer(w) => self.inner = GenericZipWriter::Storer(w),
             _ => unreachable!()
         }
+        // The compressor and the cipher are gone: anything written from here on would land in the
+        // entry as plain stored bytes. If patching the header fails below, the entry takes no more data.
+        self.writing_to_file = false;
         let writer = self.inner.get_plain();
 
         if !self.writing_raw {
